@@ -117,6 +117,20 @@ def OBJECT(cls, **attrs):
 
 
 HOSTFN = Dom(['hostfn'], label='HOSTFN')
+EXC = Dom(['exc'], label='EXC')      # an exception instance raised by host code: any class, any args (text, none, unhashable ...)
+
+
+class HostCodeError(Exception):
+    """ a foreign exception whose text happens to spell an error code """
+    def __str__(self):
+        return '#NUM!'
+
+
+def exc_samples():
+    return [ValueError('math domain error'), ValueError(), KeyError('k'), KeyError({'a': 1}), ValueError([1, 2]), TypeError({1, 2}),
+            ZeroDivisionError('division by zero'), OSError(2, 'No such file'), Exception(None), Exception('#N/A'), Exception('#DIV/0!', 3),
+            RuntimeError(('#REF!',)), HostCodeError(), HostCodeError([3]), REAL['XLError'](['#N/A']), REAL['XLError'](), IndexError(0),
+            UnicodeDecodeError('utf-8', b'\xff', 0, 1, 'bad'), StopIteration(), AssertionError(-1.5)]
 SYMMAP = Dom(['symmap'], label='SYMMAP')                                       # a per-instance dict with text keys
 SYMMAP_LISTS = Dom(['symmap'], attrs={'default_list': True}, label='SYMMAP_LISTS')   # defaultdict(list)
 
@@ -231,6 +245,10 @@ def str_of_symbol(p, k):
 
 def called(name):
     raise NotImplementedError('called() is only available to the symbolic executor')
+
+
+def callee_outcomes(name):
+    raise NotImplementedError('callee_outcomes() is only available to the symbolic executor')
 
 
 def calls(fn):
@@ -462,6 +480,9 @@ def numeric_items(items, try_parse, text_is_zero):
 
 def stat(name, data):
     import statistics
+    if name == 'product':
+        import functools, operator
+        return functools.reduce(operator.mul, data)
     return getattr(statistics, name)(data)
 
 
@@ -564,7 +585,7 @@ def ceil(x):
 
 
 NATIVE_NAMES = ['Outcome', 'Dom', 'NONE_T', 'BOOL', 'INT', 'FLOAT', 'STR', 'ERR', 'DATE', 'NUMBER', 'NUMBERB', 'SCALAR',
-                'HOSTOBJ', 'ANY', 'VALUE_T', 'SEQ', 'ARGS', 'CONST', 'CHOICE', 'TUPLE', 'LISTN', 'OBJECT', 'HOSTFN', 'DDICT', 'choice', 'ddict', 'listener', 'has_attr', 'get_attr', 'is_closure', 'SYMMAP', 'SYMMAP_LISTS', 'OMITTED', 'host_calls', 'emits', 'setter_values', 'registry_has', 'registry_fn', 'map_has', 'map_get', 'PROD', 'str_of_symbol', 'called', 'calls', 'call_result', 'result_of', 'contract',
+                'HOSTOBJ', 'EXC', 'ANY', 'VALUE_T', 'SEQ', 'ARGS', 'CONST', 'CHOICE', 'TUPLE', 'LISTN', 'OBJECT', 'HOSTFN', 'DDICT', 'choice', 'ddict', 'listener', 'has_attr', 'get_attr', 'is_closure', 'SYMMAP', 'SYMMAP_LISTS', 'OMITTED', 'host_calls', 'emits', 'setter_values', 'registry_has', 'registry_fn', 'map_has', 'map_get', 'PROD', 'str_of_symbol', 'called', 'callee_outcomes', 'calls', 'call_result', 'result_of', 'contract',
                 'lemma', 'is_none', 'is_bool', 'is_int', 'is_float', 'is_num', 'is_numb', 'is_str', 'is_err', 'is_date',
                 'is_list', 'is_obj', 'same', 'truthy', 'implies', 'raises', 'raise_err', 'forall', 'exists', 'flat', 'collapse_spaces', 'replace_kth', 'first_error', 'numeric_items', 'stat', 'wildcard_match', 'acot', 'acoth', 'cot', 'col_value', 'col_label', 'is_cell_label', 'is_digits', 'label_parts', 'parsed_label', 'parity_true', 'xl_type', 'date_us', 'date_from_us', 'dateutil_parse',
                 'int_of_text', 'text_is_int', 'float_of_text', 'text_is_float', 'errmsg', 'is_canonical', 'real',
@@ -645,6 +666,8 @@ def samples_of(dom, rng, depth=0):
         return [ProdSpec(names, list(c)) for c in combos]
     if 'hostfn' in dom.kinds:
         return [HostFnSpec()]
+    if 'exc' in dom.kinds:
+        return exc_samples()
     if 'pyobj' in dom.kinds:
         names = list((dom.attrs or {}).keys())
         pools = [samples_of(dom.attrs[n], rng, depth + 1) for n in names]
